@@ -277,3 +277,32 @@ From Kestrel.gen Require Import Extracted.
 Theorem C09_noise_guard_constants : x_noise_guard_min = 96%N /\ x_noise_guard_max = 65535%N.
 Proof. split; reflexivity. Qed.
 Print Assumptions C09_noise_guard_constants.
+
+(* the length checks that decide between an error value and a panic, with the literals of the CURRENT sources
+   (tools/extract.py) tied to the model's own functions *)
+Theorem C09_length_check_constants :
+  x_lib_payload_key_len = 32%N /\ x_lib_public_key_len = 32%N /\ x_lib_private_key_len = 32%N /\
+  x_lib_private_key_generate_len = x_lib_private_key_len /\ x_lib_x25519_sk_len = x_lib_private_key_len /\
+  x_lib_x25519_pk_len = x_lib_public_key_len /\ x_noise_dh_len = x_lib_public_key_len /\
+  x_lib_noise_dec_payload_len = x_lib_payload_key_len /\ x_lib_dec_noise_key_len = x_lib_payload_key_len /\
+  (* Key::new / PayloadKey::new of the model panics exactly off the extracted length *)
+  (forall b : bytes, Noise.key_new b = if Nat.eqb (length b) (N.to_nat x_lib_payload_key_len) then Ok b else Panic PUnwrap) /\
+  (* the handshake reader's guard of the model is the extracted one, and it is an error value *)
+  (forall len : nat,
+     Noise.read_len_guard false len =
+     if (Nat.leb (N.to_nat x_noise_guard_min) len && (N.of_nat len <=? x_noise_guard_max)%N)%bool then Ok tt else Err NOther) /\
+  x_noise_guard_is_error = 1%N /\
+  (* x25519 of the model panics exactly off the extracted lengths *)
+  (forall (P : prims) (k u : bytes),
+     AeadWrap.x25519 P k u =
+     if negb (Nat.eqb (length k) (N.to_nat x_lib_x25519_sk_len)) then Panic PUnwrap
+     else if negb (Nat.eqb (length u) (N.to_nat x_lib_x25519_pk_len)) then Panic PUnwrap
+     else let r := p_dh P k u in if all_zero r then Err DhError else Ok r) /\
+  (* decrypt_chunks: a length field above the chunk size is the error, the body read takes length + tag bytes, one
+     probe byte at the end *)
+  x_dec_len_gt_chunk_size_is_error = 1%N /\ x_dec_ct_read_extra = x_lib_tag_size /\ x_dec_probe_len = 1%N /\
+  x_lib_dec_ietf_min_len = x_lib_tag_size /\
+  (* nonce + 1 below u64::MAX *)
+  x_noise_nonce_step_enc = 1%N /\ x_noise_nonce_step_dec = 1%N /\ x_noise_set_nonce_assert_max = 1%N.
+Proof. repeat split; intros; reflexivity. Qed.
+Print Assumptions C09_length_check_constants.
